@@ -639,11 +639,16 @@ def cursor_loops_advance(prog, rule, files, floor=1):
     from .cfg import strip_addr, written_lvalues, is_ref, estr
 
     def cursor_key(e):
-        e = strip_addr(e)
-        while e is not None and e.get('k') in ('paren', 'cast'):
-            e = e['e']
         if e is None:
             return None
+        inner = strip_addr(e)
+        e = inner if inner is not None else e      # `&local` and a pointer parameter both name the cursor
+        while e is not None and e.get('k') in ('paren', 'cast'):
+            e = e['e']
+        if e is None or 'k' not in e and 'id' not in e:
+            return None
+        if 'k' not in e:
+            return ('id', e['id'])                 # a declaration
         return ('id', e['id']) if is_ref(e) and 'id' in e else ('expr', estr(e))
     n = 0
     for f in prog.funcs.values():
@@ -661,6 +666,8 @@ def cursor_loops_advance(prog, rule, files, floor=1):
             if test is None:
                 continue
             cur = cursor_key(test['args'][0])
+            if cur is None:
+                continue
             adv = CURSOR_TESTS[test['callee']]
             moving = set()
             for b in body:
@@ -670,7 +677,7 @@ def cursor_loops_advance(prog, rule, files, floor=1):
                         moving.add(b)
                     if ev['ev'] == 'call' and ev['e'].get('callee') not in adv and b != h:
                         for ai, a in enumerate(ev['e']['args']):
-                            if cursor_key(a) == cur and a.get('k') == 'un' and _may_advance(prog, f, ev['e'].get('callee'), ai, adv, 0):
+                            if cursor_key(a) == cur and cur is not None and _may_advance(prog, f, ev['e'].get('callee'), ai, adv, 0):
                                 moving.add(b)
                     for lhs, how, rhs in written_lvalues(ev):
                         if cursor_key(lhs) == cur and how != '&arg' and b != h:
